@@ -2,6 +2,7 @@
 #[macro_use]
 extern crate rdp;
 
+pub mod io;
 pub mod props;
 pub mod util;
 
@@ -26,5 +27,8 @@ pub fn run_property(id: &str, tier: Tier, replay: Option<(String, Value)>) -> i3
     dispatch! {
         "C08" => c08,
         "C09" => c09,
+        "C13" => c13,
+        "C14" => c14,
+        "C16" => c16,
     }
 }
